@@ -45,7 +45,7 @@ def main():
     if P.errors:
         raise Unsupported("; ".join(P.errors))
     depth = 1 if C.tier == "quick" else 2
-    C.bounds = {"type_depth": depth, "max_arity": T.MAX_ARITY, "names": T.NAMES, "unify_all_elements": 2 if C.tier == "quick" else 3}
+    C.bounds = {"type_depth": depth, "max_arity": T.MAX_ARITY, "names": T.NAMES, "unify_all_elements": "2 at depth 1" if C.tier == "quick" else "3 at depth 1"}
     C.assumptions += ["type names are atoms; derive(PartialEq) on Type/TypeName is structural equality (merged over templates)",
                       "well-formed types without Error nodes (property statement)"]
     S = T.TypeSpace(P, depth)
@@ -86,24 +86,28 @@ def main():
         return replay
 
     for same in (False, True):
-        res = explore(lambda ctx: run_pair(ctx, same), max_paths=60000)
-        C.note_paths(res)
-        n_some = 0
-        for i, r in enumerate(res):
+        cnt = {"some": 0, "paths": 0}
+
+        def handle(i, r, same=same, cnt=cnt):
+            # streamed: at depth 2 the pair space has several hundred thousand paths; nothing per path is retained
+            cnt["paths"] += 1
             tag = "same" if same else "pair"
+            if r.kind == "unwind":
+                C.inconclusive.append(f"unwinding bound hit: {r.value}")
+                return
             if r.kind == "panic":
                 C.prove(f"{tag}/path{i}:no-panic", r.pc, False, site="unify/panic", what=f"unify panics: {r.value}")
-                continue
+                return
             if r.kind != "ok":
-                continue
+                return
             v = r.value
             C.note_interp(v["I"])
             if "u" not in v:
                 if same:
                     C.prove(f"same/path{i}:unify-t-t-is-some", r.pc, False, site="unify/equal-types-not-unified",
                             what="unify(t, t) returns None", replay=replay_pair(v))
-                continue
-            n_some += 1
+                return
+            cnt["some"] += 1
             claim = b_and(v["a_sub_u"], v["b_sub_u"])
             C.prove(f"{tag}/path{i}:inputs-are-subtypes-of-result", r.pc, claim, site="unify/result-not-a-supertype",
                     what="unify(a, b) = u but a <: u or b <: u fails", replay=replay_pair(v),
@@ -112,45 +116,52 @@ def main():
                 C.prove(f"same/path{i}:equal-types-return-that-type", r.pc, v["u_eq_a"], site="unify/equal-types-changed",
                         what="unify(t, t) returns a type different from t", replay=replay_pair(v),
                         model_desc=lambda m: T.show(T.type_to_json(m, S, "a")))
-            if n_some <= 3 and not same:
+            if cnt["some"] <= 3 and not same:
                 C.sample({"path": i, "obligation": "pc => a <: unify(a,b) and b <: unify(a,b)", "result_shape": repr(v["u"])[:120]})
-        C.reach(f"{'same' if same else 'pair'}/some-path-exists", [z3.BoolVal(n_some > 0)])
+        explore(lambda ctx: run_pair(ctx, same), max_paths=2000000, on_result=handle)
+        C.paths += cnt["paths"]
+        C.reach(f"{'same' if same else 'pair'}/some-path-exists", [z3.BoolVal(cnt["some"] > 0)])
 
-    # unify_all over k elements
+    # unify_all over k elements (thorough: 3 elements on depth-1 templates; 3 depth-2 templates are out of reach)
     k = 2 if C.tier == "quick" else 3
     labels = ["a", "b", "c"][:k]
+    SA = S if depth == 1 else T.TypeSpace(P, 1)
     if "unify_all" in P.fns:
         def run_all(ctx):
-            ctx.assume(z3.And(*[S.wf(l) for l in labels]))
+            ctx.assume(z3.And(*[SA.wf(l) for l in labels]))
             I = Interp(P, ctx)
-            ts = [S.build(l) for l in labels]
+            ts = [SA.build(l) for l in labels]
             r = I.call_user(P.fns["unify_all"], [Vec([(t, Opaque(f"pos{j}")) for j, t in enumerate(ts)], "slice")])
             out = {"I": I, "r": r, "ts": ts}
             if isinstance(r, Enum) and r.variant == "Ok":
                 u = r.fields[0]
                 out["subs"] = [I.call_user(P.fns["is_subtype"], [t, u]) for t in ts]
             return out
-        res = explore(run_all, max_paths=120000)
-        C.note_paths(res)
-        n_ok = 0
-        for i, r in enumerate(res):
-            if r.kind != "ok" or "subs" not in r.value:
-                continue
-            n_ok += 1
+        cnt_all = {"ok": 0, "paths": 0}
 
-            def replay_all(m):
-                tys = [T.type_to_json(m, S, l) for l in labels]
-                u = {"UD": {"name": "NoValue", "args": []}}
-                for t in tys:
-                    u = hook("unify").ask({"a": u, "b": t})
-                    if u is None:
-                        return {"reproduced": False, "detail": "real unify_all fails"}
-                ok = all(hook("subtype").ask({"a": t, "b": u}) for t in tys)
-                return {"reproduced": not ok, "artefact": {"types": [T.show(t) for t in tys], "unified": T.show(u)},
-                        "detail": f"all-subtypes={ok}"}
+        def replay_all(m):
+            tys = [T.type_to_json(m, SA, l) for l in labels]
+            u = {"UD": {"name": "NoValue", "args": []}}
+            for t in tys:
+                u = hook("unify").ask({"a": u, "b": t})
+                if u is None:
+                    return {"reproduced": False, "detail": "real unify_all fails"}
+            ok = all(hook("subtype").ask({"a": t, "b": u}) for t in tys)
+            return {"reproduced": not ok, "artefact": {"types": [T.show(t) for t in tys], "unified": T.show(u)},
+                    "detail": f"all-subtypes={ok}"}
+
+        def handle_all(i, r):
+            cnt_all["paths"] += 1
+            if r.kind == "unwind":
+                C.inconclusive.append(f"unwinding bound hit: {r.value}")
+            if r.kind != "ok" or "subs" not in r.value:
+                return
+            cnt_all["ok"] += 1
             C.prove(f"all/path{i}:every-element-is-a-subtype", r.pc, b_and(*r.value["subs"]), site="unify_all/result-not-a-supertype",
                     what="unify_all([t1..tk]) = u but some t_i <: u fails", replay=replay_all)
-        C.reach("unify_all/ok-path-exists", [z3.BoolVal(n_ok > 0)])
+        explore(run_all, max_paths=2000000, on_result=handle_all)
+        C.paths += cnt_all["paths"]
+        C.reach("unify_all/ok-path-exists", [z3.BoolVal(cnt_all["ok"] > 0)])
 
     # translator validation against the hook on solver-drawn concrete pairs
     solver = z3.Solver()
